@@ -28,16 +28,9 @@ def route(case):
 
 # Every finding of this property is fixed in /repo (d6fc4b1, 488e192, fe05ccf, bbcb995): the model has one variant,
 # what /repo HEAD does; a regression to any of the old defects is a VIOLATION.
-# Fixed in /repo: d6fc4b1, 488e192, fe05ccf, bbcb995, 1b41d89 (a regression to any of them is a VIOLATION).  Open:
-# lns_down_unfixed = internal/l2tp onLCPDown does not take the NCPs Down (finding lns-lcp-down-ncp-down,
-# fixes/C05_lns_lcp_down_ncp_down.patch); differs from repaired in kind lns only.
-VARIANTS = ["repaired", "lns_down_unfixed"]
-
-
-def signature(case, impl, models):
-    if (case.split() or [""])[0] == "lns" and models.get("lns_down_unfixed") == impl:
-        return "lns-lcp-down-ncp-down"
-    return None
+# Every finding of this property is fixed in /repo (d6fc4b1, 488e192, fe05ccf, bbcb995, 1b41d89, c99b5bd): one model
+# variant, what /repo HEAD does; a regression to any old defect is a VIOLATION.
+VARIANTS = ["repaired"]
 # Which Identifiers the originated packets carry is a choice the property leaves free: the model driver reads them
 # (start value id0 and the Identifier of every scr/str/scj) from the implementation's line, runs with that policy and
 # checks it is admissible (INADMISSIBLE:<why> otherwise).
